@@ -195,10 +195,17 @@ pub fn gen_typing(src: &mut Src, layout: &Layout, alphabet: &[KeyCode], max_taps
   // memory (many distinct absorbed keys, long candidate lists)
   let wide = layout.mappings.len() >= 9;
   let taps = src.below(if wide { max_taps.max(40) } else { max_taps } + 1);
+  let mut last_outputs: Option<Vec<KeyCode>> = None;
   let mut sticky_final: Option<KeyCode> = if wide && src.chance(60) { Some(*src.pick(&layout.mappings).from.last().unwrap()) } else { None };
   for _ in 0..taps {
-    if layout.mappings.is_empty() || src.chance(if wide { 5 } else { 15 }) {
-      let k = src.pick(alphabet);
+    let outs_in_alphabet = last_outputs.as_ref().map(|o| o.iter().any(|k| alphabet.contains(k))).unwrap_or(false);
+    if layout.mappings.is_empty() || src.chance(if outs_in_alphabet { 25 } else if wide { 5 } else { 15 }) {
+      // a plain key: from the alphabet, or a key that the mapping tapped last outputs (users
+      // do press keys that mappings also produce)
+      // (only keys of the alphabet: a key outside it may be a distinguished output key, which by
+      // definition is never pressed physically)
+      let outs: Vec<KeyCode> = last_outputs.clone().unwrap_or_default().into_iter().filter(|k| alphabet.contains(k)).collect();
+      let k = if !outs.is_empty() && src.chance(60) { src.pick(&outs) } else { src.pick(alphabet) };
       if !held.contains(&k) {
         out.push(Step::Ev(Event::Pressed(k)));
         out.push(Step::Ev(Event::Released(k)));
@@ -215,8 +222,23 @@ pub fn gen_typing(src: &mut Src, layout: &Layout, alphabet: &[KeyCode], max_taps
       Some(f) => layout.mappings.iter().filter(|m| *m.from.last().unwrap() == f).collect(),
       None => layout.mappings.iter().collect(),
     };
-    let m = cands[src.below(cands.len())];
+    // (in very large layouts the far end of the list gets its share of taps)
+    let m = if cands.len() > 1000 && src.chance(50) {
+      if src.chance(50) {
+        cands[cands.len() - 1 - src.below(600.min(cands.len()))]
+      } else {
+        // extremes of the key order (tables sorted by key put them first / last)
+        let hi = cands.iter().map(|m| *m.from.last().unwrap()).max().unwrap();
+        let lo = cands.iter().map(|m| *m.from.last().unwrap()).min().unwrap();
+        let want = if src.chance(70) { hi } else { lo };
+        let ext: Vec<&&crate::keys::Mapping> = cands.iter().filter(|m| *m.from.last().unwrap() == want).collect();
+        if src.chance(50) { *ext[ext.len() - 1 - src.below(ext.len().min(8))] } else { *ext[src.below(ext.len())] }
+      }
+    } else {
+      cands[src.below(cands.len())]
+    };
     let fk = *m.from.last().unwrap();
+    last_outputs = Some(m.to.clone());
     if held.contains(&fk) {
       held.retain(|x| *x != fk);
       out.push(Step::Ev(Event::Released(fk)));
